@@ -16,15 +16,20 @@ Theorem C04_camel_agrees : forall s : str,
   forallb snake_char s = true -> has_letter s = true -> camel_b s = Ok (tauri_camel s).
 Proof. exact camel_agrees. Qed.
 
+(* the call-site guard of apply_naming_convention (repair C15-fix-C15-camel-call-site-guard) keeps that name *)
+Theorem C04_camel_guard_agrees : forall s : str,
+  forallb snake_char s = true -> has_letter s = true -> camel_guard s = tauri_camel s.
+Proof. exact camel_guard_agrees. Qed.
+
 (* each of the eight configurable rules, as the generator applies it, gives the specified name *)
 Theorem C04_rule_agrees : forall (r : rule) (s : str),
   forallb snake_char s = true -> (r = RCamel -> has_letter s = true) -> apply_rule r s = Ok (spec_name r s).
 Proof. exact rule_agrees. Qed.
 
-(* for every spelling the quantifier lists, outside the three spelling classes, the analysis
+(* for every spelling the quantifier lists, outside the two spelling classes, the analysis
    classifies a parameter type as Tauri does: injected (no key), channel (a key), value (a key) *)
 Theorem C04_kinds : forall t : aty,
-  ty_dom t = true -> ty_bare_window t = false -> ty_ipc_channel t = false -> ty_short_request t = false ->
+  ty_dom t = true -> ty_bare_window t = false -> ty_short_request t = false ->
   match spec_kind t with
   | KInjected => is_injected t = true /\ channel_of t = false
   | KChannel => is_injected t = true /\ channel_of t = true
@@ -64,34 +69,45 @@ Theorem C04_zod_split : forall (cf : cfg) (c : cmd),
                   map fst vs = spec_value_keys cf c /\ map fst cs = spec_chan_keys cf c.
 Proof. exact zod_split_thm. Qed.
 
+(* since the guard, generation never panics: every command, configuration string and mode *)
+Theorem C04_never_panics : forall (cf : cfg) (m : mode) (c : cmd), exists g, generate cf m c = Ok g.
+Proof. exact never_panics. Qed.
+
 (* the run-time oracle accepts what C04_optional describes *)
 Theorem C04_oracle_accepts : forall (cf : cfg) (m : mode) (c : cmd),
   cmd_dom c = true -> kf_any cf c = false ->
   exists g l, generate cf m c = Ok g /\ invoke_keys g = Some l /\ optional_ok cf c l = true.
 Proof. exact oracle_accepts. Qed.
 
-(* the five recorded classes: an in-domain witness lying in that class only, on which the faithful
-   model delivers a wrong key set in both modes (or panics) *)
+(* the four remaining classes: an in-domain witness lying in that class only, on which the faithful
+   model delivers a wrong key set in both modes *)
 Theorem C04_bare_window_refuted :
   cmd_dom w_window = true /\ only_class 0 cfg_default w_window = true /\
   bad cfg_default Plain w_window = true /\ bad cfg_default Zod w_window = true.
 Proof. exact refuted_bare_window. Qed.
-Theorem C04_ipc_channel_refuted :
-  cmd_dom w_ipc_channel = true /\ only_class 1 cfg_default w_ipc_channel = true /\
-  bad cfg_default Plain w_ipc_channel = true /\ bad cfg_default Zod w_ipc_channel = true.
-Proof. exact refuted_ipc_channel. Qed.
 Theorem C04_short_request_refuted :
-  cmd_dom w_request = true /\ only_class 2 cfg_default w_request = true /\
+  cmd_dom w_request = true /\ only_class 1 cfg_default w_request = true /\
   bad cfg_default Plain w_request = true /\ bad cfg_default Zod w_request = true.
 Proof. exact refuted_short_request. Qed.
 Theorem C04_macro_case_refuted :
-  cmd_dom w_macro = true /\ only_class 3 cfg_default w_macro = true /\
+  cmd_dom w_macro = true /\ only_class 2 cfg_default w_macro = true /\
   bad cfg_default Plain w_macro = true /\ bad cfg_default Zod w_macro = true.
 Proof. exact refuted_macro_case. Qed.
+(* a parameter named with underscores only under camelCase: no panic any more, but the key is the
+   name itself where Tauri (heck) deserialises the empty string *)
 Theorem C04_underscore_name_refuted :
-  cmd_dom w_underscore = true /\ only_class 4 cfg_default w_underscore = true /\
-  generate cfg_default Plain w_underscore = Panic /\ generate cfg_default Zod w_underscore = Panic.
+  cmd_dom w_underscore = true /\ only_class 3 cfg_default w_underscore = true /\
+  bad cfg_default Plain w_underscore = true /\ bad cfg_default Zod w_underscore = true /\
+  spec_keys cfg_default w_underscore = [([], false); (L "userId", false)] /\
+  option_map kb_of (match generate cfg_default Plain w_underscore with Ok g => invoke_keys g | Panic => None end)
+    = Some [(L "__", false); (L "userId", false)].
 Proof. exact refuted_underscore_name. Qed.
+(* repaired (C04-2-ipc-channel): the former witness is outside every class and satisfies the property *)
+Theorem C04_ipc_channel_fixed :
+  cmd_dom w_ipc_channel = true /\ kf_any cfg_default w_ipc_channel = false /\
+  good cfg_default Plain w_ipc_channel = true /\ good cfg_default Zod w_ipc_channel = true /\
+  spec_keys cfg_default w_ipc_channel = [(L "onEvent", false); (L "jobId", false)].
+Proof. exact fixed_ipc_channel. Qed.
 
 (* non-vacuity: a command mixing every kind of parameter meets the premises, and the result is not trivial *)
 Definition ex_cmd : cmd := {| c_name := L "stream_items"; c_macro_case := None;
@@ -101,33 +117,37 @@ Definition ex_cmd : cmd := {| c_name := L "stream_items"; c_macro_case := None;
                 mkp "db" (APath [] NState (Some [GLife; GType]));
                 mkp "page_size" (APath [] NOption (Some [GType]));
                 mkp "win" (APath [] NWindow (Some [GType]));
-                mkp "req" (APath [STauri; SIpc] NRequest (Some [GLife])) ] |}.
+                mkp "req" (APath [STauri; SIpc] NRequest (Some [GLife]));
+                mkp "log_ch" (APath [SIpc] NChannel (Some [GType])) ] |}.
 Example C04_ex_premises :
   cmd_dom ex_cmd = true /\ kf_any cfg_default ex_cmd = false /\
   kf_any {| default_case := L "SCREAMING-KEBAB-CASE" |} ex_cmd = false.
 Proof. vm_compute. auto. Qed.
 Example C04_ex_keys :
-  spec_keys cfg_default ex_cmd = [(L "userId", false); (L "onEvent2", false); (L "pageSize", true)] /\
+  spec_keys cfg_default ex_cmd = [(L "userId", false); (L "onEvent2", false); (L "pageSize", true); (L "logCh", false)] /\
   option_map kb_of (match generate cfg_default Zod ex_cmd with Ok g => invoke_keys g | Panic => None end)
-    = Some [(L "userId", false); (L "pageSize", true); (L "onEvent2", false)].
+    = Some [(L "userId", false); (L "pageSize", true); (L "onEvent2", false); (L "logCh", false)].
 Proof. vm_compute. auto. Qed.
 Example C04_ex_camel : forallb snake_char (L "a__b_1c_") = true /\ has_letter (L "a__b_1c_") = true /\
-  tauri_camel (L "a__b_1c_") = L "aB1c" /\ camel_b (L "__") = Panic.
-Proof. vm_compute. auto. Qed.
+  tauri_camel (L "a__b_1c_") = L "aB1c" /\ camel_b (L "__") = Panic /\ camel_guard (L "__") = L "__" /\
+  tauri_snake (L "_a__b_") = L "a_b".
+Proof. vm_compute. repeat split; reflexivity. Qed.
 Example C04_ex_kinds : ty_dom (APath [] NState (Some [GLife; GType])) = true /\
   spec_kind (APath [] NState (Some [GLife; GType])) = KInjected /\ spec_kind (APath [] NState None) = KValue.
 Proof. vm_compute. auto. Qed.
 
 Print Assumptions C04_camel_agrees.
+Print Assumptions C04_camel_guard_agrees.
 Print Assumptions C04_rule_agrees.
 Print Assumptions C04_kinds.
 Print Assumptions C04_keys.
 Print Assumptions C04_optional.
 Print Assumptions C04_modes_agree.
 Print Assumptions C04_zod_split.
+Print Assumptions C04_never_panics.
 Print Assumptions C04_oracle_accepts.
 Print Assumptions C04_bare_window_refuted.
-Print Assumptions C04_ipc_channel_refuted.
 Print Assumptions C04_short_request_refuted.
 Print Assumptions C04_macro_case_refuted.
 Print Assumptions C04_underscore_name_refuted.
+Print Assumptions C04_ipc_channel_fixed.
